@@ -298,10 +298,17 @@ def c12(tier, seed, work):
 
 
 def c16(tier, seed, work):
-    fams = [dict(name="c16-discovery", module="MCGenCipher", cfg_tpl="Gen_Cipher.cfg.tpl", family="discovery", tier=tier, seed=seed)]
+    fams = [dict(name="c16-discovery", module="MCGenCipher", cfg_tpl="Gen_Cipher.cfg.tpl", family="discovery", tier=tier, seed=seed),
+            dict(name="c16-dcmi", module="MCGenDcmi", cfg_tpl="Gen_Cipher.cfg.tpl", family="paging", tier=tier, seed=seed)]
     muts = [("MCCipherSelect", "Mutant_CipherSelect_ShortStop.cfg", "C16_StopsAtShortChunkInclExactMultiple"),
-            ("MCCipherSelect", "Mutant_CipherSelect_Concat.cfg", "C16_MalformedGivesErrorNotPartial")]
-    return walk_check("C16", tier, seed, work, [("MCCipherSelect", "MC_CipherSelect.cfg")], muts if tier != "quick" else [], fams,
+            ("MCCipherSelect", "Mutant_CipherSelect_Concat.cfg", "C16_MalformedGivesErrorNotPartial"),
+            ("DcmiPaging", "Mutant_DcmiPaging_Advance.cfg", "C16_AllRecordIDsInOrderNoDup"),
+            ("DcmiPaging", "Mutant_DcmiPaging_Fallback.cfg", "C16_AllRecordIDsInOrderNoDup")]
+    return walk_check("C16", tier, seed, work, [("MCCipherSelect", "MC_CipherSelect.cfg"), ("DcmiPaging", "MC_DcmiPaging.cfg")],
+                      muts if tier != "quick" else [], fams,
+                      "DcmiPaging.tla (per-entity instance lists, page size, IPMI/DCMI entity families, error for IPMI IDs) checked "
+                      "exhaustively for counts 0..4 x page sizes 1..3 x both families; generated instance counts up to 255 x page sizes "
+                      "1..8 x three entities x both families incl. fallback on empty and on error, served by a rule-driven in-session BMC. "
                       "CipherSelect.tla (chunked retrieval + record grammar) checked exhaustively for lists of <= 3 records from a "
                       "5-record universe x 6 malformed tails; generated lists of 0..20 standard/OEM records with 0..3 algorithms per "
                       "class, including encodings that are exact multiples of 16 bytes, and malformed tails, served by a rule-driven "
